@@ -1759,6 +1759,9 @@ class unyt_array(np.ndarray):
         if getattr(ret, "shape", None) == ():
             ret = unyt_quantity(ret, bypass_validation=True, name=self.name)
             ret.units = self.units
+        elif isinstance(ret, unyt_quantity):
+            # a non-scalar item of a quantity (e.g. q[np.newaxis]) is an array
+            ret = ret.view(unyt_array)
         return ret
 
     def __setitem__(self, item, value):
